@@ -39,7 +39,9 @@ func (d *decoder) Read(b []byte) (int, error) {
 	if d.err != nil {
 		return 0, d.err
 	}
-	if d.remain == 0 {
+	if d.remain <= 0 {
+		// remain is negative when a nested length (message size, batch
+		// length) read from the wire was negative: nothing can be read.
 		return 0, io.EOF
 	}
 	if len(b) > d.remain {
